@@ -151,7 +151,7 @@ class ESST1AModel(ExcBase, ExcVsum):
                                    info='VA (LA_y) initial value')
 
         self.vref.v_str = 'ue * (v + (vf0 - SWVOS_s2 * SG + LR_y) / KA - SWVOS_s1 * SG - SWUEL_s1 * UEL)'
-        self.vref.v_iter = 'ue * (v + (vf0 - SWVOS_s2 * SG + LR_y) / KA - SWVOS_s1 * SG - SWUEL_s1 * UEL)'
+        self.vref.v_iter = 'ue * (v + (vf0 - SWVOS_s2 * SG + LR_y) / KA - SWVOS_s1 * SG - SWUEL_s1 * UEL) - vref'
 
         self.vref0 = PostInitService(info='Initial reference voltage input',
                                      tex_name='V_{ref0}',
@@ -162,7 +162,7 @@ class ESST1AModel(ExcBase, ExcVsum):
                         tex_name='V_i',
                         unit='p.u.',
                         e_str='ue * (-LG_y + vref - WF_y + SWUEL_s1 * UEL + SWVOS_s1 * SG + Vs) - vi',
-                        v_iter='ue * (-LG_y + vref - WF_y + SWUEL_s1 * UEL + SWVOS_s1 * SG + Vs)',
+                        v_iter='ue * (-LG_y + vref - WF_y + SWUEL_s1 * UEL + SWVOS_s1 * SG + Vs) - vi',
                         v_str='ue * (-LG_y + vref - WF_y + SWUEL_s1 * UEL + SWVOS_s1 * SG + Vs)',
                         )
 
@@ -207,7 +207,7 @@ class ESST1AModel(ExcBase, ExcVsum):
         self.vas = Algeb(tex_name=r'V_{As}',
                          info='V_A after subtraction, as HVG u2',
                          v_str='ue * (SWVOS_s2 * SG + LA_y - LR_y)',
-                         v_iter='ue * (SWVOS_s2 * SG + LA_y - LR_y)',
+                         v_iter='ue * (SWVOS_s2 * SG + LA_y - LR_y) - vas',
                          e_str='ue * (SWVOS_s2 * SG + LA_y - LR_y) - vas',
                          )
 
